@@ -1041,6 +1041,11 @@ C04_LONG = [
     [("spawn", 2), ("iter_partial", 1), ("spawn", 3), ("iter",), ("exit", 2), ("iter",), ("clear",), ("iter",)],
     [("spawn", 3), ("proc", 3), ("iter",), ("reuse", 3), ("isrun",), ("proc", 3), ("iter",), ("iter",), ("isrun",)],
     [("spawn", 2), ("proc", 2), ("exit", 2), ("spawn", 2), ("iter",), ("isrun",), ("iter",), ("isrun",)],
+    # long tails after a reuse was detected: the recycled entry is replaced ONCE, then the same object stays
+    [("spawn", 2), ("spawn", 3), ("iter",), ("reuse", 2), ("isrun",), ("iter",), ("iter",), ("iter",), ("iter",), ("iter",)],
+    [("spawn", 3), ("iter",), ("reuse", 3), ("isrun",), ("iter",), ("iter",), ("isrun",), ("iter",), ("iter",), ("iter",)],
+    [("spawn", 2), ("iter",), ("reuse", 2), ("isrun",), ("iter",), ("iter",), ("reuse", 2), ("isrun",), ("iter",), ("iter",),
+     ("iter",), ("iter",)],
 ]
 
 
@@ -2787,3 +2792,54 @@ def c07_proc_stat_search(meta, seed, budget):
         cols, ncpu = rng.choice([7, 8, 9, 10, 11]), rng.choice([1, 2, 16])
         yield {"cols": cols, "ncpu": ncpu,
                "rows": [[rng.choice([0, 1, 99, 10 ** 6, 2 ** 40]) for _ in range(cols)] for _ in range(ncpu + 1)]}
+
+
+# ---------------------------------------------------------------------------
+# C04: _pslinux.pid_exists (thread IDs are not PIDs; fallback to the listing)
+# ---------------------------------------------------------------------------
+
+@runner("c04:linux_pid_exists")
+def c04_linux_pid_exists(model, meta):
+    from psutil import _pslinux, _psposix
+    pid = int(model.get("pid", 4242))
+    posix = bool(model.get("posix_exists", True))
+    readable = model.get("readable", cfg_of(meta).get("status", "ok"))
+    tgid = int(model.get("tgid", pid))
+    listed = [int(x) for x in model.get("listed", [1, pid])]
+    status = b"Name:\tx\nUmask:\t0022\nState:\tS (sleeping)\nTgid:\t%d\nNgid:\t0\nPid:\t%d\n" % (tgid, pid)
+
+    def open_binary(path, *a, **k):
+        if str(path).endswith(f"/{pid}/status"):
+            if readable == "enoent":
+                raise FileNotFoundError(2, "No such file or directory", path)
+            if readable == "denied":
+                raise PermissionError(13, "Permission denied", path)
+            import io
+            return io.BytesIO(status)
+        raise FileNotFoundError(2, "No such file or directory", path)
+
+    with mock.patch.object(_psposix, "pid_exists", lambda p: posix), mock.patch.object(_pslinux, "open_binary", open_binary), \
+            mock.patch.object(_pslinux, "pids", lambda: list(listed)):
+        try:
+            res, exc = _pslinux.pid_exists(pid), None
+        except Exception as e:  # noqa: BLE001
+            res, exc = None, e
+    if not posix:
+        want = False
+    elif readable == "ok":
+        want = tgid == pid
+    else:
+        want = pid in listed
+    bad = exc is not None or res != want
+    return {"env": {}, "result": res if exc is None else repr(exc), "expected": want, "exc": None, "verdict": bad,
+            "tag": f"_pslinux.pid_exists({pid}): kill(0) {'finds' if posix else 'finds no'} task, status {readable}, Tgid {tgid}, "
+                   f"listed {listed} -> {res if exc is None else repr(exc)}, expected {want}" if bad else None}
+
+
+@search("c04:linux_pid_exists")
+def c04_linux_pid_exists_search(meta, seed, budget):
+    for posix in (True, False):
+        for readable in ("ok", "enoent", "denied"):
+            for tgid in (4242, 4000):
+                for listed in ([1, 4242], [1, 4000], []):
+                    yield {"pid": 4242, "posix_exists": posix, "readable": readable, "tgid": tgid, "listed": listed}
